@@ -232,7 +232,7 @@ def run_case(case):
                 return ("na",)
             path, uspec = slots[mu["li"] % len(slots)]
             parent = mat.obj_get(obj, node, path[:-1])
-            v = mu["variant"] % 3
+            v = mu["variant"] % 4
             if v == 0:
                 Foreign = type("ForeignStruct", (xo.Struct,), {"q": xo.Int64})
                 arg = Foreign(q=5, _buffer=buf)
@@ -240,9 +240,16 @@ def run_case(case):
             elif v == 1:
                 arg = {"q": 5}
                 labels.add("union_plain_dict")
-            else:
+            elif v == 2:
                 arg = ("NoSuchTypeName", {"q": 5})
                 labels.add("union_wrong_type_name")
+            else:
+                # a class that IS a member of another union type of the process and has been stored there legally
+                Foreign = type("OtherMember", (xo.Struct,), {"q": xo.Int64})
+                OtherU = type("OtherUnion", (xo.UnionRef,), {"_reftypes": [Foreign]})
+                arg = Foreign(q=5, _buffer=buf)
+                OtherU(arg, _buffer=buf)
+                labels.add("union_member_of_other_union")
             applied = True
             return lambda: mat.obj_set(parent[0], parent[1], path[-1:], arg)
         if kind == "struct_update_bad_field":
